@@ -23,7 +23,7 @@ def run(pid, tier, v, wd, repo, tags="verif,dae_stub_ebpf"):
     with open(infile, "w") as out:
         plan = {   # configuration -> 1/keep of its behaviours in the quick tier
             "C06": [("UdpFlow_genA.cfg", 3), ("UdpFlow_genAB.cfg", 1), ("UdpFlow_genConn2.cfg", 3)],
-            "C13": [("UdpFlow_genA.cfg", 3), ("UdpFlow_genAB.cfg", 1), ("UdpFlow_genScope.cfg", 8), ("UdpFlow_genMixed.cfg", 8), ("UdpFlow_genConn2.cfg", 4)],
+            "C13": [("UdpFlow_genA.cfg", 3), ("UdpFlow_genAB.cfg", 1), ("UdpFlow_genScope.cfg", 8), ("UdpFlow_genConn2.cfg", 4)],
             "C18": [("UdpFlow_genAB.cfg", 1), ("UdpFlow_genMixed.cfg", 8)],
         }[pid] + ([("UdpFlow_genAB5.cfg", 1)] if tier != "quick" else [])
         for cfg, keep in plan:
